@@ -583,6 +583,22 @@ impl<'de> serde::Deserializer<'de> for &'de Value {
             };
             return visitor.visit_bytes(binary);
         }
+        if name == crate::lazyvalue::OWNED_LAZY_VALUE_TOKEN {
+            // the target is an `OwnedLazyValue`: it holds the JSON text of this value, handed over
+            // through the same private protocol the text deserializer uses
+            let val = std::mem::ManuallyDrop::new(tri!(crate::to_lazyvalue(self)));
+            let binary = unsafe {
+                slice::from_raw_parts(
+                    &*val as *const crate::OwnedLazyValue as *const u8,
+                    std::mem::size_of::<crate::OwnedLazyValue>(),
+                )
+            };
+            return visitor.visit_bytes(binary);
+        }
+        if name == crate::lazyvalue::TOKEN {
+            // ... a `LazyValue`: it receives (a copy of) the JSON text
+            return visitor.visit_str(&tri!(crate::to_string(self)));
+        }
         if name == crate::serde::rawnumber::TOKEN {
             use crate::JsonValueTrait;
             // the target is a `RawNumber`: give it the text of a number (or of a string holding
